@@ -44,7 +44,7 @@ mutant('mk-func-no-comma', ['C01'], MK,
 mutant('mk-deps-as-target', ['C04'], MK,
        "out.write_each(rule.deps, Syntax.dependency, prefix=lit(' '))",
        "out.write_each(rule.deps, Syntax.target, prefix=lit(' '))",
-       'MK_PREREQ')
+       'rule prerequisites')
 mutant('mk-shelly-drops-function', ['C01'], MK,
        "shelly = syntax in [Syntax.function, Syntax.shell]",
        "shelly = syntax in [Syntax.shell]", 'shelly-set')
@@ -113,7 +113,7 @@ mutant('nj-identity-repl', ['C04'], NJ,
 mutant('nj-inputs-as-shell', ['C04'], NJ,
        "out.write_each(build.inputs, Syntax.input, prefix=lit(' '))",
        "out.write_each(build.inputs, Syntax.shell, prefix=lit(' '))",
-       'NJ_PATH')
+       'build inputs')
 mutant('nj-rule-name-unchecked', ['C02'], NJ,
        "        if re.search(r'\\W', name):\n"
        "            raise ValueError('rule name contains invalid characters')\n",
